@@ -138,7 +138,7 @@ class Awaitify(Generic[T]):
         self.__wrapped__ = function
         self._async_call: "Callable[..., Awaitable[T]] | None" = None
 
-    def __call__(self, *args: Any, **kwargs: Any) -> Awaitable[T]:
+    def __call__(self, /, *args: Any, **kwargs: Any) -> Awaitable[T]:
         if (async_call := self._async_call) is None:
             value = self.__wrapped__(*args, **kwargs)
             if isinstance(value, Awaitable):
